@@ -82,11 +82,25 @@ End Quoting.
    as s_items does (hexadecimal and octal look-ahead across the closing quote
    included); unquote's prefix / delimiter analysis recovers exactly that body.
    The hypothesis is the specification's domain (Spec.v): on ill-formed UTF-8 the
-   scanner substitutes U+FFFD for the offending byte and the statement is false
-   (scan_agreement_needs_wellformed_source below). *)
+   scanner substitutes U+FFFD for the offending byte, so the VALUE differs and the
+   equation is false (scan_agreement_needs_wellformed_source below); everything
+   else still agrees: scan_accepts_same_extent, next. *)
 Theorem scan_agrees_with_spec : forall src,
   valid_utf8 src = true -> model_scan src = spec_scan src.
 Proof. exact scan_agrees_with_spec_lemma. Qed.
+
+(* For EVERY byte string src whatsoever (any length, any bytes, ill-formed UTF-8
+   included): the model and the specification's reader reject src together, or
+   both accept it as a literal of the same kind (string / bytes) with the same
+   extent (the same remaining input).  Same induction, run in the mode that
+   forgets the value (ProofsAgreeItems.rel false). *)
+Theorem scan_accepts_same_extent : forall src,
+  match model_scan src, spec_scan src with
+  | SErr, SErr => True
+  | SOk b1 _ rest1, SOk b2 _ rest2 => b1 = b2 /\ rest1 = rest2
+  | _, _ => False
+  end.
+Proof. exact scan_accepts_same_extent_lemma. Qed.
 
 (* The same statement established independently of the induction, by complete
    enumeration inside Coq: EVERY source text of length <= 6 over the 14
